@@ -5,6 +5,8 @@ import (
 	"strings"
 	"testing"
 
+	"github.com/openconfig/goyang/pkg/yang"
+
 	"pgregory.net/rapid"
 
 	"verif/lib/canon"
@@ -17,6 +19,8 @@ import (
 type Case struct {
 	Set   *ymodel.Set `json:"set"`
 	Order []int       `json:"order,omitempty"`
+	// StoreUses: the option that keeps the uses statements on the entries is set (the trees are the same)
+	StoreUses bool `json:"store_uses,omitempty"`
 }
 
 func check(c Case) (o ev.Outcome) {
@@ -37,7 +41,7 @@ func check(c Case) (o ev.Outcome) {
 	}
 	o.Sample = map[string]any{"order": c.Order, "sources": srcs}
 	var obs *schema.Observed
-	if !ev.Guard(&o, "load+process", func() { obs = schema.Load(srcs, nil) }) {
+	if !ev.Guard(&o, "load+process", func() { obs = schema.Load(srcs, func(ms *yang.Modules) { ms.ParseOptions.StoreUses = c.StoreUses }) }) {
 		o.Violations = nil
 		o.OutOfClaim = "crash while loading (C01)"
 		return
@@ -107,6 +111,7 @@ func gen(t *rapid.T) Case {
 	if rapid.Bool().Draw(t, "permute") {
 		c.Order = schema.Order(t, len(set.Modules))
 	}
+	c.StoreUses = rapid.IntRange(0, 3).Draw(t, "store-uses") == 0
 	return c
 }
 
@@ -114,11 +119,12 @@ func TestCheck(t *testing.T) {
 	ev.Run(t, ev.Spec[Case]{
 		ID:    "C12",
 		Level: "exploration",
-		Rule: "module sets from the schema model with explicit config statements at random depths of the data tree (never inside rpc/action/notification; 'true' only where no enclosing node says false; groupings contain only 'false' and groupings with config are not used inside operations), combined with uses across modules and submodules, augments (also into config-false subtrees, choices and cases, rpc input/output), submodule content, choice/case and rpc/action/notification; in a fifth of the sets an older revision of one of the modules (same namespace, other content, referred to by nothing) is loaded as well, first or last. " +
+		Rule: "module sets from the schema model with explicit config statements at random depths of the data tree (never inside rpc/action/notification; 'true' only where no enclosing node says false; groupings contain only 'false' and groupings with config are not used inside operations), combined with uses across modules and submodules, augments (also into config-false subtrees, choices and cases, rpc input/output; in a third of the sets up to two augments of the implicit case of a leaf or leaf-list member or of a container/list below an implicit case), submodule content, choice/case and rpc/action/notification; in a fifth of the sets an older revision of one of the modules (same namespace, other content, referred to by nothing) is loaded as well, first or last. " +
 			"Oracle: for every node of every module tree ReadOnly(), Namespace().Name and InstantiatingModule() equal the reference attributes computed on the expanded model (nearest explicit config on the path or inside an output; module whose text placed the node: user of a grouping, augmenter, owner of a submodule). " +
 			"Non-trivial = the set has an explicit config or an rpc/action output, and nodes that were copied (uses/augment) or written in a submodule; distinct by (set, order)",
 		Assumptions: []string{
-			"the namespace of implicit case nodes is not judged (they have no text of their own)",
+			"the namespace of implicit case nodes is not judged (they have no text of their own); their config and read-only are",
+			"the implicit case of a container or list member is not used as augment target (until the cases are inserted that path names the member itself: the library's design, outside C07)",
 			"config statements below an rpc/action/notification are not generated (RFC 7950 ignores them)",
 			"sets goyang rejects are judged elsewhere",
 		},
